@@ -40,13 +40,14 @@ def uw_one(n, be, items=None, n2=None, extra=None):
         "RawTableInner::rehash_in_place": nn + 1,
         # label .0 = inner swap chain (<= items iterations), .1 = outer walk over the N buckets
         "RawTableInner::rehash_in_place.0": it, "RawTableInner::rehash_in_place.1": nn + 1,
+        "RawTableInner::rehash_in_place::{closure#0}.0": nn + 1,  # the panic guard walks all buckets
         "RawTableInner::resize_inner": it,
         "FullBucketsIndices::next_impl": g + 1,
         "FullBucketsIndices": g + 1,
-        "RawIterRange": g + 2,
+        "RawIterRange*::next_impl": g + 2, "RawIterRange*as std::iter::Iterator>::next": g + 2,
         # fold_impl: CBMC sees its two nested loops as one (same head): groups + elements iterations
         "RawIterRange*fold_impl": g + nn + 2,
-        "RawTableInner::drop_elements": it, "RawIter": it,
+        "RawTableInner::drop_elements": it, "RawIter*::drop_elements": it,
         "clone_from_impl": nn + 1,
         "swap_nonoverlapping": 34,
         # harness helpers (sym.rs)
@@ -62,6 +63,7 @@ def uw_one(n, be, items=None, n2=None, extra=None):
         # infeasible for the concrete counts; keep their unwinding minimal (an unwinding assertion
         # reports it if such a path turns out to be feasible after all)
         for k in ("RawTableInner::rehash_in_place", "RawTableInner::rehash_in_place.0", "RawTableInner::rehash_in_place.1",
+                  "RawTableInner::rehash_in_place::{closure#0}.0",
                   "RawTableInner::prepare_rehash_in_place", "RawTableInner::resize_inner"):
             d[k] = 2
     if extra:
@@ -201,7 +203,7 @@ def instances():
           tier="thorough" if w == 1 else "quick", timeout=10800 if w == 1 else 900, mem_gb=30 if w == 1 else 14)
     # ------------------------------------------------------------------ C02 layouts, ZST, leaked guards
     OPS = ("insert", "remove", "iterate", "drain", "clone", "into_iter", "insert_grow", "retain", "shrink")
-    for ty, tn, quick_ops in (("u16", "u16", (0, 6)), ("u64", "u64", (1, 4)), ("[u64; 3]", "u64x3", (0, 3, 6)), ("sym::Al32", "al32", (0, 1, 2, 6)), ("sym::Big", "big200", (0, 5, 6))):
+    for ty, tn, quick_ops in (("u16", "u16", (0, 6)), ("u64", "u64", (1, 4)), ("[u64; 3]", "u64x3", (0, 3, 6)), ("sym::Al32", "al32", (0, 1, 2, 6)), ("sym::Big", "big200", (0, 5))):
         for op, on in enumerate(OPS):
             n, n2, items = (4, 8, 3) if op == 6 else (4, 4, 2)
             if ty == "u16" and True:
@@ -211,9 +213,10 @@ def instances():
     T("c02_al32_insert_n4_s16", "c02::layout_ops::<sym::Al32, 4, 4>(2, 0)", 4, items=2, be=S16, props=("C02",))
     T("c02_u64x3_remove_n8_s16", "c02::layout_ops::<[u64; 3], 8, 8>(4, 1)", 8, items=4, be=S16, props=("C02",))
     for op, on in enumerate(("iterate", "remove", "retain", "extract_if", "drain", "insert_into_iter")):
-        T("c02_zst_%s_n8" % on, "c02::zst_ops::<8>(%d)" % op, 8, be=G8, props=("C02", "C10" if op in (2, 3, 4) else "C09"))
+        T("c02_zst_%s_n8" % on, "c02::zst_ops::<8>(%d)" % op, 8, be=G8, props=("C02", "C10" if op in (2, 3, 4) else "C09"),
+          tier="thorough" if op == 5 else "quick", timeout=10800 if op == 5 else 900, mem_gb=30 if op == 5 else 14)
     T("c02_zst_remove_n16_s16", "c02::zst_ops::<16>(1)", 16, be=S16, props=("C02",))
-    T("c02_zst_iterate_n16_s16", "c02::zst_ops::<16>(0)", 16, be=S16, props=("C02", "C09"))
+    T("c02_zst_iterate_n16_s16", "c02::zst_ops::<16>(0)", 16, be=S16, props=("C02", "C09"), tier="thorough", timeout=10800, mem_gb=30)
     for w, wn in enumerate(("iter_mut", "drain", "extract_if", "into_iter", "occupied_entry", "vacant_entry")):
         T("c02_leak_%s_n8" % wn, "c02::leaked_guard::<8>(%d)" % w, 8, be=G8, props=("C02",))
     T("c02_leak_drain_n16", "c02::leaked_guard::<16>(1)", 16, be=G8, props=("C02",), tier="thorough")
@@ -276,8 +279,9 @@ def instances():
     T("c04_hasher_grow_nodrop_n4", "c04::hasher_panic_nodrop::<4, 8>(0b0111, 0, 1, 0)", 4, n2=8, items=3, props=("C04", "C02"), be=G8)
     T("c04_hasher_grow_nodrop_n8", "c04::hasher_panic_nodrop::<8, 16>(0b00010010, 0, 6, 1)", 8, n2=16, items=2, props=("C04", "C02"))
     T("c04_hasher_grow_drop_n8", "c04::hasher_panic_drop::<8, 16>(0b00100100, 0, 6, 0)", 8, n2=16, items=2, props=("C04", "C03"), be=G8)
-    T("c04_rehash_hook_nodrop_n8", "c04::rehash_hook_panic::<8>(3, false)", 8, n2=8, items=3, be=G8, props=("C04", "C02"), timeout=1800)
-    T("c04_rehash_hook_drop_n8", "c04::rehash_hook_panic::<8>(3, true)", 8, n2=8, items=3, be=G8, props=("C04", "C03"), timeout=1800)
+    T("c04_rehash_hook_nodrop_n8", "c04::rehash_hook_panic::<8>(3, false)", 8, n2=8, items=3, be=G8, props=("C04", "C02"), timeout=7200, tier="thorough", mem_gb=30)
+    T("c04_rehash_hook_drop_n8", "c04::rehash_hook_panic::<8>(3, true)", 8, n2=8, items=3, be=G8, props=("C04", "C03"), timeout=7200, tier="thorough", mem_gb=30)
+    T("c04_rehash_hook_drop_n4", "c04::rehash_hook_panic::<4>(2, true)", 4, n2=4, items=2, be=G8, props=("C04", "C03"), timeout=1800)
     T("c04_rehash_hook_nodrop_n4", "c04::rehash_hook_panic::<4>(2, false)", 4, n2=4, items=2, props=("C04", "C02"), timeout=1800, be_quick=G8)
     for (nt, ns) in ((8, 8), (8, 4), (4, 8), (8, 1), (4, 4)):
         big = (nt, ns) in ((8, 8), (4, 8))
@@ -286,14 +290,21 @@ def instances():
     for w, wn in enumerate(("clear", "drop", "drain", "into_iter", "retain", "shrink0")):
         T("c04_drop_panic_%s_n8" % wn, "c04::drop_panic::<8>(%d)" % w, 8, be=G8, props=("C04", "C03"), covers="some")
     T("c04_predicate_validity_retain_n8", "c04::predicate_time_validity::<8>(false)", 8, be=G8, props=("C04",))
-    T("c04_predicate_validity_extract_n4", "c04::predicate_time_validity::<4>(true)", 4, be=G8, props=("C04",))
+    T("c04_predicate_validity_extract_n4", "c04::predicate_time_validity::<4>(true)", 4, be=G8, props=("C04",), tier="thorough", timeout=10800, mem_gb=30)
     T("c04_predicate_validity_extract_n8", "c04::predicate_time_validity::<8>(true)", 8, be=G8, props=("C04",), tier="thorough", timeout=10800, mem_gb=30)
     T("c04_replace_entry_validity_n8", "c04::replace_entry_with_validity::<8>()", 8, be=G8, props=("C04", "C14"))
     # ------------------------------------------------------------------ C07 HashSet algebra
     for op, on in enumerate(("union", "intersection", "difference", "symdiff")):
-        T("c07_%s_n4_n4" % on, "c07::algebra::<4, 4>(2, 3, %d)" % op, 4, be=G8, props=("C07",), unwind=7, timeout=1500)
-        T("c07_%s_n4_n4_rev" % on, "c07::algebra::<4, 4>(3, 1, %d)" % op, 4, be=G8, props=("C07",), unwind=7, timeout=1500)
-        T("c07_%s_n8_n8" % on, "c07::algebra::<8, 8>(3, 2, %d)" % op, 8, props=("C07",), be=S16 if op in (0, 1) else G8, tier="quick" if op in (0, 3) else "thorough", timeout=1800)
+        # next()-driven with size_hint at every step: 2 steps in the quick tier, to exhaustion in the thorough tier
+        T("c07_%s_next2_n4_n4" % on, "c07::algebra::<4, 4>(2, 3, %d, 2)" % op, 4, be=G8, props=("C07",), unwind=7, timeout=1500 if op != 3 else 14400,
+          tier="quick" if op != 3 else "thorough", mem_gb=14 if op != 3 else 40)
+        T("c07_%s_n4_n4" % on, "c07::algebra::<4, 4>(2, 3, %d, 9)" % op, 4, be=G8, props=("C07",), unwind=7, timeout=14400, tier="thorough", mem_gb=40)
+        T("c07_%s_n4_n4_rev" % on, "c07::algebra::<4, 4>(3, 1, %d, 9)" % op, 4, be=G8, props=("C07",), unwind=7, timeout=14400, tier="thorough", mem_gb=40)
+        T("c07_%s_fold_n4_n4" % on, "c07::algebra_fold::<4, 4>(2, 3, %d)" % op, 4, be=G8, props=("C07",), unwind=7, timeout=1500)
+        T("c07_%s_fold_n4_n4_rev" % on, "c07::algebra_fold::<4, 4>(3, 1, %d)" % op, 4, be=G8, props=("C07",), unwind=7, timeout=1500)
+        T("c07_%s_fold_n8_n8" % on, "c07::algebra_fold::<8, 8>(3, 2, %d)" % op, 8, props=("C07",), be=S16 if op in (0, 1) else G8, timeout=1800 if op < 2 else 14400,
+          tier="quick" if op < 2 else "thorough", mem_gb=14 if op < 2 else 40)
+        T("c07_%s_n8_n8" % on, "c07::algebra::<8, 8>(3, 2, %d, 9)" % op, 8, props=("C07",), be=S16 if op in (0, 1) else G8, tier="thorough", timeout=14400, mem_gb=40)
     for w, wn in enumerate(("subset", "superset", "disjoint", "eq")):
         T("c07_pred_%s_n4_n4" % wn, "c07::predicates::<4, 4>(%d)" % w, 4, be=G8, props=("C07", "C11"), covers="some", unwind=7, timeout=1500)
         T("c07_pred_%s_n8_n4" % wn, "c07::predicates::<8, 4>(%d)" % w, 8, be=G8, props=("C07", "C11"), covers="some", tier="thorough", timeout=10800, mem_gb=30)
@@ -335,14 +346,21 @@ def instances():
         T("c14_map_occ_%s_n8" % fn_, "c14::map_entry_occ::<8>(%d)" % form, 8, be=G8, props=("C14", "C01"))
     T("c14_map_occ_replace_n16", "c14::map_entry_occ::<16>(2)", 16, be=G8, props=("C14",), timeout=1800)
     # ------------------------------------------------------------------ C19 rayon (sequential core)
-    T("c19_range_split_n16", "c19::range_split::<16>()", 16, be=G8, props=("C19",), covers="some")
-    T("c19_range_split_n32", "c19::range_split::<32>()", 32, props=("C19",), covers="some", timeout=1800)
-    T("c19_range_split_n64", "c19::range_split::<64>()", 64, be=S16, props=("C19",), covers="some", tier="thorough", timeout=7200)
-    T("c19_range_split_n8", "c19::range_split::<8>()", 8, be=G8, props=("C19",), covers="some")
-    T("c19_par_iter_producer_n16", "c19::par_iter_producer::<16>()", 16, be=G8, props=("C19",))
-    T("c19_par_iter_producer_n32", "c19::par_iter_producer::<32>()", 32, be=S16, props=("C19",), timeout=1800)
-    T("c19_par_drain_producer_n16", "c19::par_drain_producer::<16>()", 16, be=G8, props=("C19", "C03"), covers="some", timeout=1800)
-    T("c19_par_drain_producer_n8", "c19::par_drain_producer::<8>()", 8, be=G8, props=("C19", "C03"), covers="some")
+    for (n, be, tier) in ((16, G8, "quick"), (32, S16, "quick"), (32, G8, "thorough"), (64, S16, "thorough")):
+        for (pre, shape) in ((0, 1), (1, 1), (0, 4), (2, 2), (1, 3), (0, 0)):
+            deep = shape >= 2
+            if deep and n in (16,) and be == G8:
+                continue  # two groups: a second split returns None
+            T("c19_split_n%d_%s_p%d_s%d" % (n, be[0], pre, shape), "c19::range_split::<%d>(%d, %d)" % (n, pre, shape), n, be=be, props=("C19",),
+              tier=tier if not (be == S16 and n == 32 and (deep or pre or shape == 0)) else "thorough", timeout=1500 if tier == "quick" else 14400, mem_gb=14 if tier == "quick" else 40)
+    T("c19_range_split_n8", "c19::range_split::<8>(1, 1)", 8, be=G8, props=("C19",))
+    T("c19_par_iter_producer_n16", "c19::par_iter_producer::<16>(true)", 16, be=G8, props=("C19",))
+    T("c19_par_iter_producer_n16_nosplit", "c19::par_iter_producer::<16>(false)", 16, be=G8, props=("C19",))
+    T("c19_par_iter_producer_n32", "c19::par_iter_producer::<32>(true)", 32, be=S16, props=("C19",), timeout=14400, tier="thorough", mem_gb=30)
+    for (lim, sp, fr) in ((1, True, False), (0, True, True), (99, True, False), (2, False, False), (99, False, False)):
+        T("c19_par_drain_n16_l%d_%d%d" % (lim, sp, fr), "c19::par_drain_producer::<16>(%d, %s, %s)" % (lim, str(sp).lower(), str(fr).lower()), 16, be=G8,
+          props=("C19", "C03"), timeout=1800)
+    T("c19_par_drain_producer_n8", "c19::par_drain_producer::<8>(1, true, false)", 8, be=G8, props=("C19", "C03"))
     # ------------------------------------------------------------------ C20 serde
     for w, wn in enumerate(("map", "set", "set_in_place")):
         T("c20_hint_bounded_%s" % wn, "c20::hint_bounded(%d)" % w, 8, props=("C20",), bounds="all 2^64 claimed lengths incl. None")
